@@ -423,8 +423,8 @@ def vinfoLens9 (fixed : Bool) (P : ModelP) : Option (Nat × Nat) :=
     `Q` (the main graph's value_info has one entry in `Q` and two in `Q2`).  The witness `exampleIR9` reproduced
     on the real code (corpus/C17 `D320`, proposed_fixes/D320.md).  The model of the repaired code is
     `serializeM9 true`; the correspondence check compares its `Q` AND `Q2` with the real ones on every generated
-    IR < 10 model with functions; a fix-point THEOREM for `serializeM9 true` is not proved (the examples below
-    are evaluations). -/
+    IR < 10 model with functions; the fix-point THEOREM for `serializeM9 true` is `C17_idempotent_ir9`
+    (deepening round 5). -/
 theorem C17_ir9_not_idempotent :
     ∃ (P : ModelP) (m m1 : MWorld) (Q : ModelP) (D m2 : MWorld) (Q2 : ModelP),
       deserializeM9 P = .ok m ∧ serializeM9 false m = .ok (m1, Q) ∧ deserializeM9 Q = .ok D ∧
@@ -466,10 +466,8 @@ example : vinfoLens9 false ⟨.mk [⟨"x", {}⟩] [] [] [ .mk ["x"] ["y"] [] ] [
     (`deserGraph_vinfo_congr`); every such non-empty name of the serialized main graph is one of the reserved
     names of the repair (`lookupNames_reserved`); an experimental entry is written only under a name that is not
     reserved and parses back, hence is not empty (`expOfFunc_mem`).
-    NOT proved: the full fix-point `C17_idempotent_ir9` (that the entries are read back into the FUNCTION values
-    they were written for and written again unchanged needs the resolution certificate of the functions; it
-    stays differential: model Q and Q2 against the real ones on every IR < 10 case with functions, and the
-    oracle). -/
+    The full fix-point (the entries are read back into the FUNCTION values they were written for and written again
+    unchanged) is `C17_idempotent_ir9` (deepening round 5), which uses this lemma for the main graph. -/
 theorem C17_ir9_entries_inert (m w1 : MWorld) (Q : ModelP) (h : serializeM9 true m = .ok (w1, Q))
     (hkeys : ∀ kv ∈ m.root.inits, (m.st.vals kv.2).name = some kv.1) :
     ∃ q, serializeM m = .ok (w1, q) ∧
@@ -569,9 +567,9 @@ theorem C17_total_ext (p : GraphE) :
     (3) the device configurations that serialization writes for a node are read back — their sharding values
     resolved in ANY scope stack whose tables bind names to values carrying them (the invariant `Named` that holds
     of every scope of the deserializer) — as configurations that are written again as they were.
-    NOT covered (still differential: counter ext_model_fixpoint, and the oracle): the flow half for the extension
-    state — that the entries carrying a value's metadata / annotation are the ones that reach its reloaded image
-    (for the store it is `C17_idempotent` through `C17_ext_erasure`).  `C17_idempotent_ext` in full is open. -/
+    The flow half for the extension state — that the entries carrying a value's metadata / annotation are the ones
+    that reach its reloaded image — is `C17_idempotent_ext` / `C17_idempotent_ext_model` (deepening round 5),
+    which use this theorem's lemmas for the payload. -/
 theorem C17_ext_payload_fixpoint (p : GraphE) (w : WorldE) (h : deserializeE p = .ok w) :
     (∀ v, ssUpdate [] (ssSorted (w.ext.vmeta v)) = ssSorted (w.ext.vmeta v) ∧
       ssUpdate (ssUpdate [] (ssSorted (w.ext.vmeta v))) (ssSorted (w.ext.vmeta v)) =
@@ -643,6 +641,12 @@ theorem C17_idempotent_ext_model (ver : Option Int) (p : ModelE) (w : MWorldE) (
 theorem C17_ext_sharding_resolved (p : GraphE) (w : WorldE) (h : deserializeE p = .ok w) :
     DevCertG w.st.vals w.ext [] w.root :=
   deserializeE_devCert p w h
+
+/-- **C17_ext_sharding_resolved_model**: `C17_ext_sharding_resolved` for models with functions: also inside function
+    bodies (whose scope is the function's own) every sharding value is the innermost binding of its name at its node
+    (`DevCertM`: the hypothesis of `C03_roundtrip_ext`), duplicate function identifiers included. -/
+theorem C17_ext_sharding_resolved_model (p : ModelE) (w : MWorldE) (h : deserializeME p = .ok w) : DevCertM w :=
+  deserializeME_devCert p w h
 
 /-- **C17_idempotent_partial**: if deserialization returns an IR `w` that is `Serializable` (the names
     of the proto were SSA per scope chain, every reference resolved to a definition of an enclosing
